@@ -179,10 +179,10 @@ def make_rescue(b, c, E, s_other):
     return rescue
 
 
-def make_zsolve(b, c, E_base, wdir_base, E_other, wdir_other):
+def make_zsolve(b, c, E_base, wdir_base, E_other, wdir_other, c_other=None):
     def zsolve(which, guess):
         E_, w_ = (E_other, wdir_other) if which == "other" else (E_base, wdir_base)
-        s_ = wl.build(c, E_)
+        s_ = wl.build(c_other if (which == "other" and c_other is not None) else c, E_)
         return np.asarray(b.generation.roughness(wl.da(c["u10"]), wl.da(w_), s_, roughness_length_guess=wl.da(guess)).values, float)
     return zsolve
 
@@ -246,6 +246,23 @@ def judge(ctx, c):
                      "invit_u10": np.asarray(pair_[1]["u10"].values, float), "invit_dir": np.asarray(pair_[1]["direction"].values, float)}
             ctx.count("C09.inversion_rotations")
             compare_inversion(ctx, "rot", base, other, k * step, 1.0, wit, rescue=make_rescue(b, c, E, sk))
+    # rotation by an arbitrary angle, expressed by relabelling the direction axis (same numbers, coordinates and wind
+    # direction shifted by phi - not a multiple of the bin width): fields unchanged bin by bin, directions + phi.
+    # The same source-term objects have just been used on the unrotated grid.
+    phi = float(c.get("phi", 13.7))
+    c_rel = dict(c)
+    c_rel["dir"] = (np.asarray(c["dir"], float) + phi) % 360.0
+    ctx.case((c["kind"], nd, pair, "relabel"), nontrivial=True, sample={"kind": c["kind"], "N": nd, "phi": phi, "pair": pair})
+    wit = lambda: {"gen": c, "relabel": True}  # noqa
+    b0 = dict(base)
+    b0.pop("inv_u10", None)
+    b0.pop("invit_u10", None)
+    ok, other = guarded(ctx, "C09.no-exception", lambda: outputs(b, c_rel, E, wdir + phi, base["z_used"], False), wit,
+                        key="C09:exception")
+    if ok:
+        ctx.count("C09.rotations_by_relabelling_the_axis")
+        compare(ctx, "rot", b0, other, lambda a: a, phi, 1.0, wit, pair,
+                zsolve=make_zsolve(b, c, E, wdir, E, wdir + phi, c_other=c_rel))
     idx = (-np.arange(nd)) % nd
     ctx.case((c["kind"], nd, pair, "mirror"), nontrivial=True)
     wit = lambda: {"gen": c, "mirror": True}  # noqa
@@ -264,7 +281,11 @@ def make(rng, i, allk):
     nd = [16, 24, 36][(i // 3) % 3] if i < 9 else int(rng.choice([16, 24, 36]))
     c = wl.make_case(rng, kind=str(rng.choice(["windsea", "veering", "veering", "mixed", "random"])), nd=nd,
                      npoints=int(rng.integers(1, 4)))
-    c.update({"pair": pair, "gen_params": None, "dis_params": None, "ks": [int(k) for k in rng.integers(1, nd, 3)],
+    # non-default generation parameters for a third of the cases (a viscous stress contribution, which ST4 switches
+    # off by default, adds a vector along the wind to the stress)
+    gp = [None, None, {"viscous_stress_parameter": 0.04}, {"charnock_constant": 0.015, "viscous_stress_parameter": 0.1}][int(rng.integers(0, 4))]
+    c.update({"pair": pair, "gen_params": gp, "dis_params": None, "ks": [int(k) for k in rng.integers(1, nd, 3)],
+              "phi": float(rng.uniform(1.0, 359.0)),
               "allk": allk, "inversion": bool(c["kind"] in ("windsea", "mixed", "veering") and i % 2 == 0)})
     return c
 
